@@ -144,9 +144,16 @@ def run_history(case):
                         return _orig(request_line, hdrs)
 
                     proto.on_data = spy
+                    raised = None
                     try:
                         data = build_ssdp_packet(start, dict(headers))
-                        proto.datagram_received(data, tuple(addr))
+                        try:
+                            proto.datagram_received(data, tuple(addr))
+                        except Exception as exc:  # noqa: BLE001
+                            # an exception out of the receive path is an observation, not a harness failure: the message
+                            # was handed to the listener (captured) and whatever the tracker did before raising stands;
+                            # the clauses then judge the missing notification / the half-done bookkeeping
+                            raised = type(exc).__name__
                     finally:
                         proto.on_data = orig
                     for _ in range(3):
@@ -174,6 +181,8 @@ def run_history(case):
                         seen_locs.add(loc)
                 nv = tracker.next_valid_to
                 obs.append({"note": note, "combined": comb, "devs": devs, "next": None if nv is None else us(nv)})
+                if op[0] != "purge" and raised:
+                    obs[-1]["raised"] = raised
     finally:
         loop.close()
     return {"ops": decoded_ops, "obs": obs, "ipver": {loc: _safe(ip_version_from_location, loc) for loc in sorted(seen_locs)}}
